@@ -266,6 +266,17 @@ func (c *genCtx) extTest(d int) node {
 }
 
 func (c *genCtx) extStmt(d int) node {
+	if c.inLoop > 0 && d > 0 && c.r.intn(3) == 0 {
+		// a jump from inside an expression of the loop body: as a statement, or as the argument of a call
+		if c.r.bool() {
+			return c.jumpExpr(d)
+		}
+		if len(c.vars) > 0 && c.r.bool() {
+			v := pick(c.r, c.vars)
+			return nSet(v, nApp("+", nSym(v), c.arg().jumpExpr(d)))
+		}
+		return c.tr(c.arg().jumpExpr(d))
+	}
 	switch c.r.intn(5) {
 	case 0: // an array of integers
 		*c.nameSeq++
@@ -457,4 +468,260 @@ func (c *genCtx) extClosureStmt(d int) node {
 	}
 	// a let inside the closure body shadows, the right-hand side still sees the captured one
 	return nBegin(nDefn("mkl", strict(a), "", nFn(nil, "", nLet(kind, []bind{{a, nApp("+", nSym(a), nInt(1))}}, nSym(a)))), c.tr(nCall(nCall(nSym("mkl"), v2))))
+}
+
+// ---------------------------------------------------------------- small exhaustive families
+
+type namedProg struct {
+	id   string
+	prog []node
+}
+
+// enumJumpPrograms: break / continue (plain and to the label of an outer loop) at every position of a
+// cond inside a loop body -- arm or predicate, through and / let / newScope / begin, directly or inside
+// a call argument -- with nothing, a let or a newScope between the loop and the cond, at top level and
+// inside a function. The forms after the loop show which scopes are still there: x is bound outside,
+// by the wrap and by the function's parameter; the loop variable is bound by nobody afterwards.
+func enumJumpPrograms() []namedProg {
+	var out []namedProg
+	for _, jk := range []string{"break", "continue"} {
+		for _, lbl := range []string{"", "outer"} {
+			for pos := 0; pos < 8; pos++ {
+				for wrap := 0; wrap < 3; wrap++ {
+					for ctx := 0; ctx < 2; ctx++ {
+						j := node{jk, lbl}
+						hit := nApp("==", nSym("i"), nInt(1))
+						var e node
+						switch pos {
+						case 0:
+							e = nCond([]clause{{hit, j}}, nInt(0))
+						case 1:
+							e = nApp("tr", nInt(4), nCond([]clause{{hit, j}}, nSym("i")))
+						case 2:
+							e = nCond([]clause{{nAnd(hit, j), nInt(1)}}, nInt(2))
+						case 3:
+							e = nCond([]clause{{nLet("let", []bind{{"q", nInt(1)}}, nCond([]clause{{hit, j}}, nBool(false))), nInt(1)}}, nInt(2))
+						case 4:
+							e = nCond([]clause{{nScope(nCond([]clause{{hit, j}}, nBool(false))), nInt(1)}}, nInt(2))
+						case 5:
+							e = nCond([]clause{{nBegin(nCond([]clause{{hit, j}}, nInt(0)), nBool(false)), nInt(1)}}, nInt(2))
+						case 6:
+							e = nApp("tr", nInt(4), nApp("+", nInt(1), nCond([]clause{{nAnd(hit, j), nInt(1)}}, nInt(2))))
+						default:
+							e = nCond([]clause{{nBool(false), nInt(1)}, {nOr(nApp("not", hit), j), nInt(2)}}, nInt(3))
+						}
+						switch wrap {
+						case 1:
+							e = nLet("let", []bind{{"x", nInt(9)}}, e)
+						case 2:
+							e = nScope(nDef("x", nInt(9)), e)
+						}
+						inner := nFor("", nDef("i", nInt(0)), nApp("<", nSym("i"), nInt(3)), nSet("i", nApp("+", nSym("i"), nInt(1))),
+							nApp("tr", nInt(1), nSym("i")), e, nApp("tr", nInt(2), nSym("i")))
+						loop := inner
+						if lbl != "" {
+							loop = nFor("outer", nDef("k", nInt(0)), nApp("<", nSym("k"), nInt(2)), nSet("k", nApp("+", nSym("k"), nInt(1))),
+								nApp("tr", nInt(5), nSym("k")), nLet("let", []bind{{"y", nInt(8)}}, inner), nApp("tr", nInt(6), nSym("k")))
+						}
+						prog := []node{nDef("x", nInt(7)), nDef("y", nInt(6))}
+						if ctx == 0 {
+							prog = append(prog, loop)
+						} else {
+							prog = append(prog, nDefn("g", strict("x"), "", loop, nApp("tr", nInt(90), nApp("list", nSym("x"), nSym("y")))), nCall(nSym("g"), nInt(5)))
+						}
+						prog = append(prog, nApp("tr", nInt(91), nApp("list", nSym("x"), nSym("y"))), nSym("i"))
+						out = append(out, namedProg{"jump-" + jk + "-" + lbl + "-" + itoa(pos) + "-" + itoa(wrap) + "-" + itoa(ctx), prog})
+					}
+				}
+			}
+		}
+	}
+	return out
+}
+
+// enumDataPrograms: the empty list and lists of different lengths under map / apply / concat / ==,
+// == between hashes, the empty hash literal evaluated twice, integer power, forms without anything to
+// evaluate in the positions that need their value.
+func enumDataPrograms() []namedProg {
+	var out []namedProg
+	add := func(id string, prog ...node) { out = append(out, namedProg{"data-" + id, prog}) }
+	lst := func(n int) node {
+		var es []node
+		for i := 0; i < n; i++ {
+			es = append(es, nInt(i+1))
+		}
+		return nApp("list", es...)
+	}
+	arr := func(n int) node {
+		var es []node
+		for i := 0; i < n; i++ {
+			es = append(es, nInt(i+1))
+		}
+		return nArr(es...)
+	}
+	sq := nFn(strict("x"), "", nApp("tr", nInt(2), nApp("*", nSym("x"), nSym("x"))))
+	for n := 0; n < 3; n++ {
+		add("map-list-"+itoa(n), nApp("tr", nInt(1), nApp("map", sq, lst(n))))
+		add("map-arr-"+itoa(n), nApp("tr", nInt(1), nApp("map", sq, arr(n))))
+		add("map-rest-"+itoa(n), nApp("tr", nInt(1), nApp("map", sq, nApp("rest", lst(n+1)))))
+		add("apply-list-"+itoa(n), nApp("tr", nInt(1), nApp("apply", nFn(nil, "r", nApp("len", nSym("r"))), lst(n))))
+		add("apply-arr-"+itoa(n), nApp("tr", nInt(1), nApp("apply", nFn(nil, "r", nApp("len", nSym("r"))), arr(n))))
+		for m := 0; m < 3; m++ {
+			add("concat-"+itoa(n)+"-"+itoa(m), nApp("tr", nInt(1), nApp("concat", lst(n), lst(m))))
+			add("concat3-"+itoa(n)+"-"+itoa(m), nApp("tr", nInt(1), nApp("concat", lst(n), lst(0), lst(m))))
+			for _, op := range []string{"==", "!="} {
+				add("listeq-"+op+"-"+itoa(n)+"-"+itoa(m), nApp("tr", nInt(1), nApp(op, lst(n), lst(m))))
+				add("arreq-"+op+"-"+itoa(n)+"-"+itoa(m), nApp("tr", nInt(1), nApp(op, arr(n), arr(m))))
+			}
+		}
+	}
+	hs := []node{nApp("hash"), nApp("hash", nQuote(nSym("a")), nInt(1)), nApp("hash", nQuote(nSym("a")), nInt(2)),
+		nApp("hash", nQuote(nSym("a")), nInt(1), nQuote(nSym("b")), nInt(2)), nApp("hash", nQuote(nSym("b")), nInt(2), nQuote(nSym("a")), nInt(1)),
+		nApp("hash", nQuote(nSym("b")), nInt(1)), nEHash()}
+	for i, a := range hs {
+		for k, b := range hs {
+			add("hasheq-"+itoa(i)+"-"+itoa(k), nApp("tr", nInt(1), nApp("==", a, b)), nApp("tr", nInt(2), nApp("!=", nArr(a), nArr(b))))
+		}
+	}
+	for pos := 0; pos < 4; pos++ {
+		var body node = nEHash()
+		switch pos {
+		case 1:
+			body = nLet("let", []bind{{"t", nEHash()}}, nSym("t"))
+		case 2:
+			body = nCond([]clause{{nBool(true), nEHash()}}, nNil())
+		case 3:
+			body = nBegin(nInt(1), nEHash())
+		}
+		add("ehash-fn-"+itoa(pos), nDefn("mk", nil, "", body), nDef("h1", nCall(nSym("mk"))), nDef("h2", nCall(nSym("mk"))),
+			nApp("hset", nSym("h1"), nQuote(nSym("a")), nInt(1)), nApp("tr", nInt(1), nApp("list", nSym("h1"), nSym("h2"))))
+	}
+	add("ehash-loop", nDef("r", nArr()),
+		nFor("", nDef("i", nInt(0)), nApp("<", nSym("i"), nInt(3)), nSet("i", nApp("+", nSym("i"), nInt(1))),
+			nLet("let", []bind{{"h", nEHash()}}, nApp("hset", nSym("h"), nSym("i"), nSym("i")), nSet("r", nApp("append", nSym("r"), nApp("len", nSym("h")))))),
+		nApp("tr", nInt(1), nSym("r")))
+	for _, b := range []int{-2, -1, 0, 1, 2, 3, 10} {
+		for e := 0; e < 5; e++ {
+			add("pow-"+itoa(b+2)+"-"+itoa(e), nApp("tr", nInt(1), nApp("**", nInt(b), nInt(e))))
+		}
+	}
+	for i, em := range []node{nBegin(), nScope()} {
+		id := itoa(i)
+		add("empty-let-"+id, nApp("tr", nInt(1), nLet("let", []bind{{"a", em}}, nSym("a"))))
+		add("empty-letseq-"+id, nApp("tr", nInt(1), nLet("letseq", []bind{{"a", em}, {"b", nInt(2)}}, nApp("list", nSym("a"), nSym("b")))))
+		add("empty-pred-"+id, nApp("tr", nInt(1), nCond([]clause{{em, nInt(1)}}, nInt(2))))
+		add("empty-arm-"+id, nApp("tr", nInt(1), nApp("list", nInt(4), nCond([]clause{{nBool(true), em}}, nInt(5)))))
+		add("empty-arg-"+id, nApp("tr", nInt(1), nApp("list", nInt(7), nInt(8), nLet("let", []bind{{"a", em}, {"b", nInt(2)}}, nApp("list", nSym("a"), nSym("b"))))))
+		add("empty-arr-"+id, nApp("tr", nInt(1), nArr(nInt(7), em)))
+		add("empty-and-"+id, nApp("tr", nInt(1), nAnd(nInt(1), em)), nApp("tr", nInt(2), nOr(em, nInt(3))))
+		add("empty-fn-"+id, nDefn("f", nil, "", em), nApp("tr", nInt(1), nApp("list", nInt(5), nCall(nSym("f")))))
+		add("empty-def-"+id, nDef("d", em), nApp("tr", nInt(1), nSym("d")))
+	}
+	return out
+}
+
+// enumScopePrograms: a closure written in a right-hand side of let / letseq next to a binding of the name
+// it uses (before or after it, read or updated, called inside the let or after it, at top level or in a
+// function); a dot path, eval and a plain variable inside a closure whose variable is a maker's parameter
+// or a let variable, with or without a global of that name; a dot path as the argument of a script
+// function whose parameter has the same name.
+func enumScopePrograms() []namedProg {
+	var out []namedProg
+	add := func(id string, prog ...node) { out = append(out, namedProg{"scope-" + id, prog}) }
+	hv := func(n int) node { return nApp("hash", nQuote(nSym("v")), nInt(n)) }
+	for _, kind := range []string{"let", "letseq"} {
+		for g := 0; g < 2; g++ { // with / without a global x
+			for ctx := 0; ctx < 2; ctx++ {
+				pre := []node{}
+				if g == 1 {
+					pre = append(pre, nDef("x", nInt(1)))
+				}
+				id := kind + "-" + itoa(g) + "-" + itoa(ctx)
+				wrap := func(name string, body node) {
+					prog := append([]node{}, pre...)
+					if ctx == 1 {
+						prog = append(prog, nDefn("g", nil, "", body), nApp("tr", nInt(9), nCall(nSym("g"))))
+					} else {
+						prog = append(prog, nApp("tr", nInt(9), body))
+					}
+					if g == 1 {
+						prog = append(prog, nApp("tr", nInt(8), nSym("x")))
+					}
+					add(name+"-"+id, prog...)
+				}
+				f := nFn(nil, "", nSym("x"))
+				wrap("before", nLet(kind, []bind{{"f", f}, {"x", nInt(2)}}, nArr(nCall(nSym("f")), nSym("x"))))
+				wrap("after", nLet(kind, []bind{{"x", nInt(2)}, {"y", nSym("x")}, {"f", f}}, nArr(nSym("y"), nCall(nSym("f")))))
+				wrap("between", nLet(kind, []bind{{"x", nInt(2)}, {"f", f}, {"x", nInt(3)}}, nArr(nCall(nSym("f")), nSym("x"))))
+				wrap("update", nLet(kind, []bind{{"f", nFn(nil, "", nSet("x", nApp("+", nSym("x"), nInt(10))))}, {"x", nInt(2)}}, nCall(nSym("f")), nArr(nCall(nSym("f")), nSym("x"))))
+				wrap("def-in-rhs", nLet(kind, []bind{{"a", nBegin(nDef("z", nInt(4)), nInt(5))}, {"b", nFn(nil, "", nSym("z"))}}, nArr(nSym("a"), nCall(nSym("b")))))
+				wrap("escapes", nCall(nLet(kind, []bind{{"f", f}, {"x", nInt(2)}}, nSym("f"))))
+				wrap("nested", nLet(kind, []bind{{"x", nInt(2)}}, nLet(kind, []bind{{"f", f}, {"x", nInt(3)}}, nArr(nCall(nSym("f")), nSym("x")))))
+				wrap("param", nCall(nFn(strict("x"), "", nLet(kind, []bind{{"f", f}, {"x", nInt(3)}}, nArr(nCall(nSym("f")), nSym("x")))), nInt(2)))
+			}
+		}
+	}
+	for g := 0; g < 2; g++ {
+		pre := []node{}
+		if g == 1 {
+			pre = append(pre, nDef("p", hv(1)), nDef("a", nInt(1)))
+		}
+		id := itoa(g)
+		addp := func(name string, prog ...node) { add(name+"-"+id, append(append([]node{}, pre...), prog...)...) }
+		addp("dot-maker", nDefn("mk", strict("p"), "", nFn(nil, "", nApp("+", nDot("p", "v"), nInt(1)))), nApp("tr", nInt(1), nCall(nCall(nSym("mk"), hv(3)))))
+		addp("dot-maker-test", nDefn("mk", strict("p"), "", nFn(nil, "", nCond([]clause{{nApp("==", nInt(3), nDot("p", "v")), nInt(30)}}, nInt(40)))), nApp("tr", nInt(1), nCall(nCall(nSym("mk"), hv(3)))))
+		addp("dot-let-defn", nLet("let", []bind{{"p", hv(3)}}, nDefn("h", nil, "", nApp("+", nDot("p", "v"), nInt(1))), nApp("tr", nInt(1), nCall(nSym("h")))))
+		addp("dot-arg-2", nDefn("f", strict("x", "p"), "", nApp("+", nSym("x"), nInt(1))), nDefn("g", strict("p"), "", nCall(nSym("f"), nDot("p", "v"), hv(5))), nApp("tr", nInt(1), nCall(nSym("g"), hv(99))))
+		addp("dot-arg-1", nDefn("f", strict("x"), "", nApp("+", nSym("x"), nInt(1))), nDefn("g", strict("p"), "", nCall(nSym("f"), nDot("p", "v"))), nApp("tr", nInt(1), nCall(nSym("g"), hv(99))))
+		addp("dot-arg-closure", nDefn("mk", strict("p"), "", nFn(nil, "", nCall(nFn(strict("x"), "", nApp("+", nSym("x"), nInt(1))), nDot("p", "v")))), nApp("tr", nInt(1), nCall(nCall(nSym("mk"), hv(3)))))
+		addp("dot-set", nDefn("mk", strict("p"), "", nFn(strict("n"), "", nSetDot("p", []string{"v"}, nApp("+", nDot("p", "v"), nSym("n"))))),
+			nDef("u", nCall(nSym("mk"), hv(10))), nApp("tr", nInt(1), nCall(nSym("u"), nInt(1))), nApp("tr", nInt(2), nCall(nSym("u"), nInt(2))))
+		addp("dot-def", nDefn("mk", strict("p"), "", nFn(nil, "", nDef("y", nDot("p", "v")), nSym("y"))), nApp("tr", nInt(1), nCall(nCall(nSym("mk"), hv(3)))))
+		addp("eval-maker", nDefn("mk", strict("a"), "", nFn(nil, "", nEval(nSym("a")))), nApp("tr", nInt(1), nCall(nCall(nSym("mk"), nInt(5)))))
+		addp("eval-let", nLet("let", []bind{{"a", nInt(5)}}, nDefn("h", nil, "", nEval(nApp("+", nSym("a"), nInt(1)))), nApp("tr", nInt(1), nCall(nSym("h")))))
+		addp("plain-maker", nDefn("mk", strict("a"), "", nFn(nil, "", nApp("+", nSym("a"), nInt(1)))), nApp("tr", nInt(1), nCall(nCall(nSym("mk"), nInt(5)))))
+	}
+	return out
+}
+
+// enumSelectorPrograms: an element a[i] or a field h.k of a variable where its value is consumed -- the test
+// of a cond, under not / and / or, as operand of mod, + and == -- for elements false, 0, 1, nil and "".
+// Rendered in the infix syntax (a[i], h.k are references there that the consumer has to follow) and, as the
+// control, in the prefix syntax.
+func enumSelectorPrograms() []namedProg {
+	var out []namedProg
+	elems := []node{nBool(false), nInt(0), nInt(1), nNil(), nStr("")}
+	keys := []string{"k", "j", "m", "n", "s"}
+	var hargs []node
+	for i, e := range elems {
+		hargs = append(hargs, nQuote(nSym(keys[i])), e)
+	}
+	pre := []node{nDef("a", nArr(elems...)), nDef("h", nApp("hash", hargs...)), nDef("b", nArr(nInt(5), nInt(2))), nDef("x", nInt(0))}
+	add := func(id string, forms ...node) {
+		out = append(out, namedProg{"sel-" + id, append(append([]node{}, pre...), forms...)})
+	}
+	yes, no := nApp("tr", nInt(1), nInt(1)), nApp("tr", nInt(1), nInt(2))
+	for i := range elems {
+		sels := map[string]node{
+			"aget": nApp("aget", nSym("a"), nInt(i)),
+			"hget": nApp("hget", nSym("h"), nQuote(nSym(keys[i]))),
+			"dot":  nDot("h", keys[i]),
+		}
+		for name, sel := range sels {
+			id := name + "-" + itoa(i)
+			add("if-"+id, nCond([]clause{{sel, yes}}, no))
+			add("not-"+id, nSet("x", nApp("not", sel)), nApp("tr", nInt(2), nSym("x")))
+			add("and-"+id, nCond([]clause{{nAnd(sel, nInt(5)), yes}}, no))
+			add("or-"+id, nCond([]clause{{nOr(sel, nBool(false)), yes}}, no))
+			add("ifnot-"+id, nCond([]clause{{nApp("not", sel), yes}}, no))
+		}
+	}
+	b0, b1 := nApp("aget", nSym("b"), nInt(0)), nApp("aget", nSym("b"), nInt(1))
+	add("mod", nSet("x", nApp("mod", b0, b1)), nApp("tr", nInt(2), nSym("x")))
+	add("plus", nSet("x", nApp("+", b0, b1)), nApp("tr", nInt(2), nSym("x")))
+	add("pow", nSet("x", nApp("**", b1, b1)), nApp("tr", nInt(2), nSym("x")))
+	add("eq", nCond([]clause{{nApp("==", b0, nInt(5)), yes}}, no))
+	add("lt", nCond([]clause{{nApp("<", b0, b1), yes}}, no))
+	add("mod-if", nCond([]clause{{nApp("mod", b0, nInt(5)), yes}}, no))
+	return out
 }
